@@ -1,5 +1,190 @@
-(* placeholder while the proofs are being written *)
-From PV Require Import Model.C14Notes.
-Theorem C14_placeholder : True. Proof. exact I. Qed.
-Print Assumptions C14_placeholder.
-Example C14_ex : True. Proof. exact I. Qed.
+(* Props/C14.v — property C14: note sections and segments yield every note exactly once;
+   descriptors of the known kinds are decoded to their encoded fields; stab records are
+   enumerated exactly.  Only statements, closed by [exact]; proofs live in
+   Proofs/C14Proofs.v, C14Desc.v, C14Iter.v.
+   Model: Model/C14Notes.v (transliteration of elf/notes.py iter_notes, sections.py
+   NoteSection / StabSection, segments.py NoteSegment, structs.py Elf_Prop / Elf_Nt_File,
+   common/utils.py roundup — its body, the layouts, enum dicts, Switch table and lambdas are
+   regenerated from the live code into Gen/C14Notes.v and Gen/ElfLayouts.v).
+   Meaning: Spec/C14Notes.v (gABI note format, Linux gABI extensions, elfcore.h, stabs).
+   The loop guard defect (a final header-only note was dropped) is repaired in /repo
+   (fix: commit); the model mirrors the repaired code, so the theorems are at full strength. *)
+From PV Require Import Base.Outcome Base.Fmt Base.Enum Base.Prim.
+From PV Require Import Gen.ElfLayouts Gen.C14Notes Spec.ElfGabi Spec.PrimSpec Spec.C14Notes Model.C14Notes.
+From PV Require Import Proofs.C14Proofs Proofs.C14Desc Proofs.C14Iter.
+Open Scope string_scope.
+Open Scope list_scope.
+Open Scope Z_scope.
+
+(* ---- roundup (translated from the live function body): a multiple of 2^b in [n, n + 2^b) ... *)
+Theorem C14_roundup_spec : forall n b, 0 <= b ->
+  roundup n b mod 2 ^ b = 0 /\ n <= roundup n b < n + 2 ^ b.
+Proof. exact roundup_spec. Qed.
+Print Assumptions C14_roundup_spec.
+
+(* ... hence the least multiple of 2^b that is >= n (every integer n, in particular n >= 1) *)
+Theorem C14_roundup_least : forall n b k, 0 <= b -> k mod 2 ^ b = 0 -> n <= k -> roundup n b <= k.
+Proof. exact roundup_least. Qed.
+Print Assumptions C14_roundup_least.
+
+(* ---- the walk: the encoding of ANY well-formed note list (any number of notes, every name and
+   descriptor size and residue mod 4, absent/empty names, empty descriptors, a header-only
+   final note, arbitrary padding bytes, known and unknown owners and types), placed at any
+   offset of any image and followed by anything, is iterated to exactly the encoded notes:
+   owner, type name or number, raw descriptor, decoded descriptor, offset, padded size; no
+   error, nothing more *)
+Theorem C14_notes_exact : forall c ns (pre tail : list Z),
+  wf_cfg c = true -> wf_notes (scfg_of c) ns = true ->
+  iter_notes c (pre ++ encode_notes (scfg_of c) ns ++ tail) (zlen pre) (zlen (encode_notes (scfg_of c) ns))
+  = (expected_notes (scfg_of c) (zlen pre) ns, None).
+Proof. exact notes_exact. Qed.
+Print Assumptions C14_notes_exact.
+
+(* the whole extent is consumed: the padded sizes add up to the extent size ... *)
+Theorem C14_extent_consumed : forall c ns off,
+  wf_notes (scfg_of c) ns = true ->
+  total_size (expected_notes (scfg_of c) off ns) = zlen (encode_notes (scfg_of c) ns).
+Proof. exact extent_consumed. Qed.
+Print Assumptions C14_extent_consumed.
+
+(* ... and each note starts where the previous one ended *)
+Theorem C14_offsets_consecutive : forall c ns off,
+  consecutive off (expected_notes (scfg_of c) off ns).
+Proof. exact offsets_consecutive. Qed.
+Print Assumptions C14_offsets_consecutive.
+
+(* one loop iteration, for the record: the note at the cursor and the next cursor *)
+Theorem C14_one_note : forall c n img (A R : list Z),
+  wf_cfg c = true -> wf_note (scfg_of c) n = true ->
+  img = A ++ encode_note (scfg_of c) n ++ R ->
+  one_note c img (zlen A) = Ok (expected_note (scfg_of c) (zlen A) n, zlen A + note_size (scfg_of c) n).
+Proof. exact one_note_ok. Qed.
+Print Assumptions C14_one_note.
+
+(* ---- the section view and the segment view of the same bytes agree (on every image,
+   well-formed or not: both are the same function of offset and size) *)
+Theorem C14_views_agree : forall c img sh ph,
+  rec_z sh "sh_offset" = rec_z ph "p_offset" -> rec_z sh "sh_size" = rec_z ph "p_filesz" ->
+  NoteSection_iter_notes c img sh = NoteSegment_iter_notes c img ph.
+Proof. exact views_agree. Qed.
+Print Assumptions C14_views_agree.
+
+(* image level: headers decoded from the file itself, wherever they lie *)
+Theorem C14_views_exact : forall c ns (pre tail : list Z) shoff phoff sh ph,
+  wf_cfg c = true -> wf_notes (scfg_of c) ns = true ->
+  let img := pre ++ encode_notes (scfg_of c) ns ++ tail in
+  section_header_at c img shoff = Ok sh -> segment_header_at c img phoff = Ok ph ->
+  rec_z sh "sh_offset" = zlen pre -> rec_z sh "sh_size" = zlen (encode_notes (scfg_of c) ns) ->
+  rec_z ph "p_offset" = zlen pre -> rec_z ph "p_filesz" = zlen (encode_notes (scfg_of c) ns) ->
+  section_notes_at c img shoff = Ok (expected_notes (scfg_of c) (zlen pre) ns, None) /\
+  segment_notes_at c img phoff = Ok (expected_notes (scfg_of c) (zlen pre) ns, None).
+Proof. exact views_exact. Qed.
+Print Assumptions C14_views_exact.
+
+(* ---- type names: the table the code selects for the file type (regenerated map
+   gen_n_type_table_of_etype over every e_type name, "<raw>" and none) is the core-file
+   table exactly for ET_CORE and the GNU table otherwise *)
+Theorem C14_type_names : forall c, wf_cfg c = true ->
+  n_type_table c = spec_n_types (s_core (scfg_of c)).
+Proof. exact n_type_table_spec. Qed.
+Print Assumptions C14_type_names.
+
+(* ---- descriptor dispatch: the if/elif chain selects exactly the standard's kind *)
+Theorem C14_dispatch : forall c name ty, wf_cfg c = true ->
+  desc_dispatch (name_of (n_type_table c) ty) name = spec_kind (scfg_of c) name ty.
+Proof. exact dispatch_spec. Qed.
+Print Assumptions C14_dispatch.
+
+(* ---- every known descriptor kind (ABI tag, build id, gold version, property list, prpsinfo,
+   file map) and the unknown kind: decoding the encoding gives the encoded fields back *)
+Theorem C14_descriptors_exact : forall c d img (A R : list Z),
+  wf_desc (scfg_of c) d = true ->
+  img = A ++ desc_bytes (scfg_of c) d ++ R ->
+  decode_desc c img (desc_kind d) (zlen A) (zlen (desc_bytes (scfg_of c) d)) (desc_bytes (scfg_of c) d)
+  = Ok (desc_view (scfg_of c) d).
+Proof. exact decode_desc_ok. Qed.
+Print Assumptions C14_descriptors_exact.
+
+(* the build-id text reads back as the build-id bytes *)
+Theorem C14_build_id_text : forall bs, all_bytes bs = true -> unhex_text (hex_text bs) = bs.
+Proof. exact unhex_hex_text. Qed.
+Print Assumptions C14_build_id_text.
+
+(* GNU property lists: any number of properties of every kind, class-dependent padding *)
+Theorem C14_property_list : forall c ps fuel img (A R : list Z),
+  (length ps < fuel)%nat -> forallb (wf_prop (scfg_of c)) ps = true ->
+  img = A ++ encode_props (scfg_of c) ps ++ R ->
+  props_go fuel c img (zlen A) (zlen A + zlen (encode_props (scfg_of c) ps))
+  = Ok (map (prop_view (scfg_of c)) ps).
+Proof. exact props_go_ok. Qed.
+Print Assumptions C14_property_list.
+
+(* the regenerated tables of the descriptor code are the standard's *)
+Theorem C14_tables :
+  (gen_prop_type_table = spec_prop_types /\ gen_prop_type_strict = false) /\
+  (forall c, table_by_id (fst (abi_os_bind c)) = spec_abi_os /\ snd (abi_os_bind c) = false) /\
+  (forall c, Elf_Prpsinfo c = prps_layout (scfg_of c)) /\
+  (subset_s gen_ugid_half_machines spec_ugid_half_machines = true /\
+   subset_s spec_ugid_half_machines gen_ugid_half_machines = true).
+Proof. exact (conj prop_type_table (conj abi_os_table (conj Elf_Prpsinfo_spec ugid_half_machines_spec))). Qed.
+Print Assumptions C14_tables.
+
+(* the Switch of Elf_Prop selects: native word for a stack size of native width, a 4-byte word
+   for the x86 / AArch64 bit masks, raw bytes for everything else *)
+Theorem C14_property_switch : forall c,
+  prop_case c GNU_PROPERTY_STACK_SIZE (Z.of_nat (native (scfg_of c))) = Some (native (scfg_of c)) /\
+  (forall ty, is_word_prop ty = true -> prop_case c ty 4 = Some 4%nat) /\
+  (forall ty dsz, is_word_prop ty = false ->
+     ((ty =? GNU_PROPERTY_STACK_SIZE) && (dsz =? Z.of_nat (native (scfg_of c))))%bool = false ->
+     prop_case c ty dsz = None).
+Proof. exact (fun c => conj (prop_case_stack c) (conj (prop_case_word c) (prop_case_raw c))). Qed.
+Print Assumptions C14_property_switch.
+
+(* ---- stabs: a .stab section over any image holding the encoded records yields exactly the
+   records, each with its offset *)
+Theorem C14_stabs_exact : forall c ss (pre tail : list Z) sh,
+  forallb (wf_stab (c_le c)) ss = true ->
+  rec_z sh "sh_offset" = zlen pre -> rec_z sh "sh_size" = zlen (encode_stabs (c_le c) ss) ->
+  StabSection_iter_stabs c (pre ++ encode_stabs (c_le c) ss ++ tail) sh
+  = (expected_stabs (c_le c) (zlen pre) ss, None).
+Proof. exact stabs_exact. Qed.
+Print Assumptions C14_stabs_exact.
+
+(* ---- non-vacuity: the hypotheses are met by concrete non-trivial inputs, and the statements
+   compute on them *)
+Definition ex_cfg : cfg := {| c_le := true; c_is64 := true; c_etype := "ET_DYN"; c_machine := "EM_X86_64" |}.
+Definition ex_core : cfg := {| c_le := false; c_is64 := false; c_etype := "ET_CORE"; c_machine := "EM_386" |}.
+Definition ex_notes : list note :=
+  [ {| n_name := Some [65; 66]; n_npad := [0x55]; n_type := 7; n_desc := DRaw [1; 2; 3]; n_dpad := [0x66] |};
+    {| n_name := Some GNU; n_npad := []; n_type := 5;
+       n_desc := DProps [ (GWord 0xc0000002 3, [9; 9; 9; 9]); (GStack 0x100000, []); (GRaw 2 [], []) ];
+       n_dpad := [] |};
+    {| n_name := Some GNU; n_npad := []; n_type := 3; n_desc := DBuildId [0xde; 0xad; 0xbe]; n_dpad := [7] |};
+    (* the header-only final note that the unrepaired loop guard dropped *)
+    {| n_name := None; n_npad := []; n_type := 9; n_desc := DRaw []; n_dpad := [] |} ].
+Definition ex_core_notes : list note :=
+  [ {| n_name := Some [67; 79; 82; 69]; n_npad := [1; 2; 3]; n_type := 0x46494c45;
+       n_desc := DFile 4096 [(0x1000, 0x2000, 0); (0x3000, 0x4000, 1)] [[47; 97]; [98]]; n_dpad := [5; 5; 5] |} ].
+
+Example C14_ex_wf :
+  wf_cfg ex_cfg = true /\ wf_notes (scfg_of ex_cfg) ex_notes = true /\
+  wf_cfg ex_core = true /\ wf_notes (scfg_of ex_core) ex_core_notes = true.
+Proof. vm_compute. repeat split; reflexivity. Qed.
+
+Example C14_ex_iter :
+  let enc := encode_notes (scfg_of ex_cfg) ex_notes in
+  iter_notes ex_cfg ([1; 2; 3] ++ enc ++ [4; 5]) 3 (zlen enc) = (expected_notes (scfg_of ex_cfg) 3 ex_notes, None)
+  /\ length (fst (iter_notes ex_cfg ([1; 2; 3] ++ enc ++ [4; 5]) 3 (zlen enc))) = 4%nat.
+Proof. vm_compute. split; reflexivity. Qed.
+
+Example C14_ex_core :
+  let enc := encode_notes (scfg_of ex_core) ex_core_notes in
+  iter_notes ex_core (enc ++ [0]) 0 (zlen enc) = (expected_notes (scfg_of ex_core) 0 ex_core_notes, None).
+Proof. vm_compute. reflexivity. Qed.
+
+Example C14_ex_stabs :
+  let ss := [[VZ 1; VZ 0x64; VZ 0; VZ 2; VZ 0x8048000]; [VZ 9; VZ 0x24; VZ 0; VZ 7; VZ 0]] in
+  forallb (wf_stab true) ss = true /\
+  StabSection_iter_stabs ex_cfg ([0] ++ encode_stabs true ss ++ [0]) [("sh_offset", VZ 1); ("sh_size", VZ 24)]
+  = (expected_stabs true 1 ss, None).
+Proof. vm_compute. split; reflexivity. Qed.
